@@ -240,8 +240,17 @@ CHECKS["C19"] = dict(
           "{/run, /async, /immediate, /cached/<id>} = 336 requests; each observed decision is compared with the model's decision functions through the regenerated guard tables. "
           "non-trivial: credentials are configured"))
 
+def c16_finding_key(case):
+    """A query that evaluates a Redis expression on a database without Redis and never returns."""
+    import re as _re
+    if case.get("kind") == "sql" and (case.get("res") or {}).get("process") == "hang" and \
+            _re.search(r"\b(HGET|SISMEMBER|LUA)\s*\(", case.get("sql", ""), _re.I):
+        return "redis-expression-stalls-without-redis"
+    return None
+
 CHECKS["C16"] = dict(
     stages=[dict(sub="c16", quick=1500, thorough=48000, shards=16, shard_min=10000)],
+    finding_key=c16_finding_key,
     assumptions=["each input is executed in a worker process against the real sql.Parse, sql.TableFor, DB.Query (planner.Plan) and Iterate on a DB with data; "
                  "a worker that dies or hangs (20s watchdog) while executing an input is recorded as crash/hang for that input and restarted at the next one",
                  "panics on the caller's goroutine are recovered by the worker and recorded as 'panic'",
